@@ -61,6 +61,16 @@ function gen1(rng, params, mode) {
       });
     }
   }
+  // one named type referred to several times in one print, some of the references carrying a doc comment (a described
+  // reference is a node of its own): the flat schema inlines the type at EVERY reference
+  if (rng.chance(1, 8)) {
+    const pn = "P" + names.length;
+    env.push([pn, [A("object"), [["x", [A("typeof"), "number"]], ["y", rng.chance(1, 2) ? [A("typeof"), "string"] : [A("opt"), [A("typeof"), "number"]]]], []]]);
+    names.push(pn);
+    const ref = () => (rng.chance(1, 2) ? [A("desc"), rng.pick(["doc", "the origin"]), [A("ref"), pn]] : [A("ref"), pn]);
+    const first = [A("desc"), "where it starts", [A("ref"), pn]];
+    rts[0] = rng.chance(1, 2) ? [A("object"), [["from", first], ["mid", ref()], ["to", ref()]], []] : [A("tuple"), [first, ref(), ref()], A("none")];
+  }
   // type names are arbitrary identifiers: names of Object.prototype members, names with `$` patterns
   if (multi && names.length && rng.chance(1, 6)) {
     const from = rng.pick(names), to = rng.pick(["toString", "constructor", "hasOwnProperty", "valueOf", "__proto__", "__proto__", "Money$$Amount", "A$&B", "Pre$`x", "Post$'x"]);
